@@ -901,16 +901,19 @@ static void run_force(int which)
                 char *out = NULL; uint64_t outlen = 0;
                 int other_reader = desc2 > 0 && e % 4 == 3;
                 if (other_reader) { mon_count("cases_read_through_instance_with_other_checksum_type", 1); strncat(dk, dk[0] ? "+other-ct-reader" : "other-ct-reader", sizeof dk - strlen(dk) - 1); }
-                int rc = liberasurecode_decode(other_reader ? desc2 : x.desc, pr.ptr, cnt, s->flen, 1, &out, &outlen);
+                /* "asks decode to force metadata checks" = any non-zero value of the int flag */
+                static const int fvals[] = { 1, -1, 2, 1, 0x100, -0x7fffffff - 1, 1, 0x7fffffff };
+                int fval = fvals[e % 8];
+                int rc = liberasurecode_decode(other_reader ? desc2 : x.desc, pr.ptr, cnt, s->flen, fval, &out, &outlen);
                 mon_count("evaluations", 1);
                 if (rc == 0) {
                     int exact = outlen == s->len && (s->len == 0 || !memcmp(out, s->data, s->len));
-                    if (!exact) mon_viol("C20", "forced-decode-wrong-bytes", "decode(force=1) returned 0 with bytes/length different from the original (damaged=%s kinds=%s valid=0x%x decoys=%s)", bm, kd, valid, dk);
+                    if (!exact) mon_viol("C20", "forced-decode-wrong-bytes", "decode(force=%d) returned 0 with bytes/length different from the original (damaged=%s kinds=%s valid=0x%x decoys=%s)", fval, bm, kd, valid, dk);
                     liberasurecode_decode_cleanup(other_reader ? desc2 : x.desc, out);
                     mon_count(within ? "force_ok_within" : "force_ok_beyond_exact", 1);
                 } else if (rc > 0) mon_viol("C20", "forced-decode-positive-rc", "rc=%d", rc);
                 else {
-                    if (within) mon_viol("C20", "forced-decode-refused", "decode(force=1) returned %d although the valid fragments 0x%x alone are within tolerance (damaged=%s kinds=%s decoys=%s)", rc, valid, bm, kd, dk);
+                    if (within) mon_viol("C20", "forced-decode-refused", "decode(force=%d) returned %d although the valid fragments 0x%x alone are within tolerance (damaged=%s kinds=%s decoys=%s)", fval, rc, valid, bm, kd, dk);
                     mon_count(within ? "force_err_within" : "force_err_beyond", 1);
                 }
                 if (nb) mon_distinct("nontrivial", mon_hash_u64(S, mon_hash_u64(Bm * 7u + (uint32_t)kinds_b[0], mon_hash_str(x.ck, 8))));
